@@ -76,6 +76,10 @@ func prewriteMutation(db *NoKV.DB, reader *Reader, req *pb.PrewriteRequest, mut 
 		Kind:        mut.Op,
 		MinCommitTs: req.MinCommitTs,
 	}
+	if lock != nil && lock.MinCommitTs > newLock.MinCommitTs {
+		// A repeated prewrite must not undo a min_commit_ts push.
+		newLock.MinCommitTs = lock.MinCommitTs
+	}
 	encoded := EncodeLock(newLock)
 	if err := db.SetVersionedEntry(kv.CFLock, key, lockColumnTs, encoded, 0); err != nil {
 		return keyErrorRetryable(err)
@@ -93,6 +97,14 @@ func Commit(db *NoKV.DB, latches *latch.Manager, req *pb.CommitRequest) *pb.KeyE
 	defer guard.Release()
 
 	reader := NewReader(db)
+	// Validate every key before touching any of them, so that a request that
+	// must fail (rolled-back key, foreign lock, commit version below
+	// min_commit_ts) does not leave some of its keys committed.
+	type pendingCommit struct {
+		key  []byte
+		lock *Lock
+	}
+	pending := make([]pendingCommit, 0, len(req.Keys))
 	for _, key := range req.Keys {
 		if len(key) == 0 {
 			return keyErrorAbort("empty key in commit")
@@ -106,15 +118,25 @@ func Commit(db *NoKV.DB, latches *latch.Manager, req *pb.CommitRequest) *pb.KeyE
 			if err != nil {
 				return keyErrorRetryable(err)
 			}
-			if write != nil {
-				continue
+			if write == nil {
+				return keyErrorAbort("lock not found")
 			}
-			return keyErrorAbort("lock not found")
+			if write.Kind == pb.Mutation_Rollback {
+				return keyErrorAbort("transaction already rolled back")
+			}
+			// Already committed: idempotent.
+			continue
 		}
 		if lock.Ts != req.StartVersion {
 			return keyErrorLocked(key, lock)
 		}
-		if err := commitKey(db, reader, key, lock, req.CommitVersion); err != nil {
+		if lock.MinCommitTs > req.CommitVersion {
+			return keyErrorCommitTsExpired(key, req.CommitVersion, lock.MinCommitTs)
+		}
+		pending = append(pending, pendingCommit{key: key, lock: lock})
+	}
+	for _, p := range pending {
+		if err := commitKey(db, reader, p.key, p.lock, req.CommitVersion); err != nil {
 			return err
 		}
 	}
